@@ -269,6 +269,7 @@ PROPS['C03'] = Prop(
            Run('cl_threads_s1_empty_hooks_p2', 'cl_threads.cpp', {'TT': 2, 'SS': 1, 'INIT': 0}, preempt=2, covers=4, optional_covers=(0, 1, 2), mt=True, bounds=_TH % ('CallbackList', 'instrumented policy', 2, 1, 2, _SP_HOOKS) + '; list initially EMPTY (handles A, B are empty handles)'),
            Run('disp_threads_s1_empty_hooks_p2', 'cl_threads.cpp', {'TT': 2, 'SS': 1, 'DISP': 1, 'INIT': 0}, preempt=2, covers=4, optional_covers=(0, 1, 2), mt=True, bounds=_TH % ('EventDispatcher', 'instrumented policy', 2, 1, 2, _SP_HOOKS) + '; no listener registered yet for the event (the per-event list is created by the racing calls)'),
            Run('disp_threads_s1_hooks_p2', 'cl_threads.cpp', {'TT': 2, 'SS': 1, 'DISP': 1}, preempt=2, covers=4, optional_covers=(2,), mt=True, bounds=_TH % ('EventDispatcher', 'instrumented policy', 2, 1, 2, _SP_HOOKS)),
+           Run('hdisp_threads_empty_s1_auto_p2', 'cl_threads.cpp', {'TT': 2, 'SS': 1, 'DISP': 2, 'OPSET': 3, 'INIT': 0}, preempt=2, covers=4, optional_covers=(0, 1, 2, 3), mt=True, shared_points=True, native=(), bounds=_NOREP3 + _TH % ('HeterEventDispatcher', 'instrumented policy; the dispatcher starts EMPTY: the threads race for the first use of the event and of the per-prototype list', 2, 1, 2, _SP_AUTO)),
            Run('hdisp_threads_grow_s1_auto_p2', 'cl_threads.cpp', {'TT': 2, 'SS': 1, 'DISP': 2, 'OPSET': 3, 'OTHERS': None, 'STDMAP': None}, preempt=2, covers=4, optional_covers=(0, 1, 2, 3), mt=True, shared_points=True, native=(), bounds=_NOREP3 + _TH % ('HeterEventDispatcher', 'instrumented policy; std::map; events 5, 6, 8 registered besides the main event 7, new events 9, 10 registered by the threads (the tree rotates under concurrent lookups)', 2, 1, 2, _SP_AUTO)),
            Run('disp_threads_grow_s1_auto_p2', 'cl_threads.cpp', {'TT': 2, 'SS': 1, 'DISP': 1, 'OPSET': 3, 'OTHERS': None, 'STDMAP': None}, preempt=2, covers=4, optional_covers=(0, 1, 2, 3), mt=True, shared_points=True, native=(), bounds=_TH % ('EventDispatcher', 'instrumented policy; std::map; events 5, 6, 8 registered besides the main event 7, new events 9, 10 registered by the threads (the tree rotates under concurrent lookups)', 2, 1, 2, _SP_AUTO))],
     thorough=[Run('hdisp_threads_grow_s2_auto_p1', 'cl_threads.cpp', {'TT': 2, 'SS': 2, 'DISP': 2, 'OPSET': 3, 'OTHERS': None, 'STDMAP': None}, preempt=1, covers=4, optional_covers=(0, 1, 2, 3), mt=True, shared_points=True, native=(), budget_s=1700, bounds=_NOREP3 + _TH % ('HeterEventDispatcher', 'instrumented policy; std::map; events 5, 6, 8 registered besides the main event 7, new events 9, 10 registered by the threads (the tree rotates under concurrent lookups)', 2, 2, 1, _SP_AUTO)),
